@@ -97,6 +97,9 @@ def known_len(x):
             return c if c is not None else P.norm(x[4][2])   # split_le(x, n) returns exactly n bits
         if n == "cb.add_virtual_hash":
             return None
+    if x[0] == "from_fn" and len(x) > 2:
+        from . import terms as _T
+        return _T.FROM_FN_LEN.get(x[2])
     if x[0] == "upd":
         return known_len(x[2])
     if x[0] == "phi":
@@ -129,7 +132,10 @@ class Desc:
         self.it = it
         self._go(it)
         if self.range is not None and self.take is not None:
-            self.other = True
+            # (a..b).take(n) with constant bounds is the range a..min(b, a + n); anything symbolic is left alone
+            lo, hi, tk = _k(self.range[0]), _k(self.range[1]), _k(self.take)
+            if not all(isinstance(x, int) for x in (lo, hi, tk)):
+                self.other = True
         if self.range is not None and self.colls:
             # a range zipped with collections: the positions line up only when the range starts at 0 and every collection is
             # known to be exactly as long as the range
@@ -180,6 +186,9 @@ class Desc:
         """(lo, hi) or None"""
         if self.other:
             return None
+        if self.range is not None and self.take is not None:
+            lo, hi, tk = _k(self.range[0]), _k(self.range[1]), _k(self.take)
+            return (lo, min(hi, lo + tk))
         if self.range is not None:
             return (_k(self.range[0]), _k(self.range[1]))
         if self.take is not None:
@@ -314,6 +323,8 @@ def _canon1(nest, t):
         if isinstance(inner, tuple) and len(inner) == 2 and inner[0] == "gen":
             # element of a collected vector of freshly created objects: the vector is the map term itself, as in `v[i]`
             return ("idx", _canon(nest, inner[1]), v)
+        if isinstance(inner, tuple) and len(inner) == 3 and inner[0] == "take" and isinstance(inner[1], tuple) and len(inner[1]) == 2 and inner[1][0] == "gen":
+            return ("idx", _canon(nest, inner[1][1]), v)     # a prefix of such a vector: the same elements
         if d.range is not None:
             return v
         if len(d.colls) == 1:
